@@ -83,3 +83,4 @@ Example C12_resume_wire_satisfiable :
 Proof.
   cbv zeta. split; [exact base64_model_ok|]. split; [exact toy_json_ok|]. vm_compute. intuition.
 Qed.
+Print Assumptions C12_resume_wire_satisfiable.
